@@ -185,6 +185,29 @@ def build() -> Check:
                     bad.append(("backoff does not depend on the attempt number", t))
         ck.floor(f"{factory}_retry_paths", n_retry, 1)
         ck.ob("R4.packaged-strategy-shape", c, not bad, (bad[0][0] + ": " + "; ".join(f"{k}->{v}" for k, v in bad[0][1].pc)) if bad else f"{n_retry} retry paths")
+    # R4 the message filters of the packaged strategy: a plain string is a literal substring, a compiled pattern is a pattern. Handing a string that came
+    # from the configuration to the regex engine without re.escape changes what it matches ("[Errno 104]" becomes a character class, "(30s)" a group)
+    RE_FUNCS = {"compile", "search", "match", "fullmatch", "findall", "finditer", "sub", "split"}
+
+    def unescaped_regex_calls(tree):
+        out = []
+        for c in ast.walk(tree):
+            if isinstance(c, ast.Call) and isinstance(c.func, ast.Attribute) and c.func.attr in RE_FUNCS and isinstance(c.func.value, ast.Name) and c.func.value.id == "re" and c.args:
+                a0 = c.args[0]
+                literal = isinstance(a0, ast.Constant) or (isinstance(a0, ast.JoinedStr) and all(isinstance(v, ast.Constant) for v in a0.values))
+                escaped = isinstance(a0, ast.Call) and isinstance(a0.func, ast.Attribute) and a0.func.attr == "escape"
+                if not literal and not escaped:
+                    out.append(c)
+        return out
+
+    fixture = ast.parse("import re\ndef f(cfg):\n    return [p if isinstance(p, re.Pattern) else re.compile(p) for p in cfg.retryable_errors]\n")
+    if not unescaped_regex_calls(fixture):
+        raise AnalysisError("regex-misuse rule does not fire on its positive example")
+    for modname in ("retries", "waits"):
+        m_ = prog.module(modname)
+        calls_ = unescaped_regex_calls(m_.tree)
+        ck.ob("R4.string-filters-match-literally", f"{modname}.py", not calls_,
+              "; ".join(f"line {c.lineno}: `{ast.unparse(c)[:70]}` feeds a non-literal to the regex engine without re.escape" for c in calls_) or "no regex built from configuration strings")
     return ck
 
 
